@@ -7,9 +7,10 @@ import os
 from ..common import chunks, finish, report, run_batches, verdict_of, write_ndjson
 from ..tlc import TLCError, require_ok, run_tlc
 
-AUTO_INVS = {"C07": ["TypeOK", "Bij", "ReachAgrees"], "C08": ["TypeOK", "Gray", "Adj"], "C09": ["TypeOK", "Inv"]}
+AUTO_INVS = {"C07": ["TypeOK", "Bij", "ReachAgrees"], "C08": ["TypeOK", "Gray", "Adj"], "C09": ["TypeOK", "Inv"],
+             "C05": ["TypeOK", "Bij"], "C20": ["TypeOK", "Bij"]}      # C05/C20: every image is a cell centre strictly inside the cube
 MC_INVS = {"C07": ["InGrid", "Agrees", "RoundTrip", "PairsOK"], "C08": ["InGrid", "PairsOK"],
-           "C09": ["InGrid", "Agrees", "RoundTrip"]}
+           "C09": ["InGrid", "Agrees", "RoundTrip"], "C05": ["InGrid", "Agrees"], "C20": ["InGrid", "Agrees"]}
 
 
 def model_check(ctx, pid):
